@@ -34,10 +34,11 @@ FILES = {'zz_verif_c08_test.go': os.path.join(H, 'var_probe_test.go'),
 # type table (must agree with Drv.C08.tyTable and harness/c08/mkprobe.py; the c08.asg lane checks that it does)
 POOL = {'int': 4, 'int8': 4, 'uint16': 4, 'int64': 4, 'uint64': 4, 'f64': 4, 'bool': 2, 'string': 4, 'c128': 4, 'arr': 4,
         'slice': 4, 'map': 4, 'struct': 4, 'ptr': 4, 'func': 4, 'chan': 4, 'uptr': 4, 'myint': 4, 'islice': 4, 'uintptr': 4,
-        'perr': 4, 'verr': 4}
+        'perr': 4, 'verr': 4, 'big': 4}
 IFACE = {'err': ['perr', 'verr'], 'any': sorted(POOL), 'str': ['verr']}
 TYPES = sorted(POOL) + sorted(IFACE)
 UNDER = {'islice': 'slice', 'slice': 'islice'}          # identical underlying types, one side unnamed
+FRESH = {'string', 'slice', 'map', 'ptr', 'struct', 'perr', 'big'}   # types with heap-built values (rep 10..13), see harness
 CBS_BAD = ['notfunc', 'nilfunc', 'args', 'rets0', 'rets2', 'panics']
 
 
@@ -48,15 +49,20 @@ def ty_of_var(v):
 NILABLE = {'slice', 'map', 'ptr', 'func', 'chan', 'uptr', 'islice', 'perr'}   # rep 0 of these is the typed nil
 
 
-def rand_val(rng, ty, allow_nil=False, exact=False):
-    """a well-typed value token for a variable of type ty (`nil` only where the program itself assigns)"""
+def rand_val(rng, ty, allow_nil=False, exact=False, fresh=(1, 8)):
+    """a well-typed value token for a variable of type ty (`nil` only where the program itself assigns);
+    with probability `fresh` a heap-built value (rep 10..13) that nothing but the variable references"""
     if ty in IFACE:
         if allow_nil and rng.chance(1, 4):
             return 'nil'
         d = rng.choice(IFACE[ty])
+        if d in FRESH and rng.chance(*fresh):
+            return f'{d}:{10 + rng.below(4)}'
         return f'{d}:{rng.below(POOL[d])}'
     if ty in UNDER and not exact and rng.chance(1, 5):
         return f'{UNDER[ty]}:{rng.below(4)}'              # []int <-> zzIntSlice: assignable, converted by reflect
+    if ty in FRESH and rng.chance(*fresh):
+        return f'{ty}:{10 + rng.below(4)}'
     return f'{ty}:{rng.below(POOL[ty])}'
 
 
@@ -97,8 +103,11 @@ def gen_hist(rng, lane, stripped=False):
     h = Hist()
     h.lane = lane
     nv = 1 + rng.below(3)
+    fresh = (3, 4) if lane == 'gc' else (1, 8)
     while len(h.vars) < nv:
         t = rng.choice(TYPES)
+        if lane == 'gc' and rng.chance(3, 4):
+            t = rng.choice(sorted(FRESH) + ['err', 'any'])
         v = t + ('2' if rng.chance(1, 2) else '')
         if h.vars and rng.chance(1, 4):                   # the other variable of a type already present
             t = ty_of_var(h.vars[0])
@@ -108,7 +117,7 @@ def gen_hist(rng, lane, stripped=False):
     mode, bld = {}, {}
     for v in h.vars:
         t = ty_of_var(v)
-        h.init[v] = rand_val(rng, t, allow_nil=True, exact=True)
+        h.init[v] = rand_val(rng, t, allow_nil=True, exact=True, fresh=fresh)
         mode[v] = 'p' if (t in IFACE or stripped or rng.chance(1, 2)) else 'u'
         bld[v] = rng.below(2)
     nh = 0
@@ -133,6 +142,12 @@ def gen_hist(rng, lane, stripped=False):
         plan.append((rng.choice(['cancel', 'reset']), rng.choice(h.vars)))
     if rng.chance(1, 12):
         plan.insert(rng.below(len(plan) + 1), ('lookbad', None))
+    # garbage collections (+ allocation churn) while mocks are active; other kinds of mockers in the same builder
+    for _ in range((1 + rng.below(3)) if lane == 'gc' else (1 if rng.chance(1, 25) else 0)):
+        plan.insert(1 + rng.below(len(plan)), ('gc', None))
+    if rng.chance(1, 6):
+        for _ in range(1 + rng.below(2)):
+            plan.insert(rng.below(len(plan) + 1), ('misc', rng.choice(h.vars)))
     # Builder.Pkg(..) overrides pending at lookups: in front of a (re-)lookup, or anywhere
     for _ in range(rng.below(3)):
         looks = [i for i, (k, _) in enumerate(plan) if k == 'look']
@@ -150,6 +165,14 @@ def gen_hist(rng, lane, stripped=False):
             else:
                 h.ops.append('lookbad ' + rng.choice(['missing', 'nil', 'nonptr-int', 'nonptr-map']))
             h.meta.append(('lookbad', None, None))
+            continue
+        if kind == 'gc':
+            h.ops.append('gc')
+            h.meta.append(('gc', None, None))
+            continue
+        if kind == 'misc':
+            h.ops.append(f'misc {bld[v]} ' + rng.choice(['struct', 'func', 'iface', 'exportfunc']))
+            h.meta.append(('misc', None, None))
             continue
         if kind in ('pkg', 'pkglook'):
             h.ops.append(f'pkg {bld[v]} {1 + rng.below(2)}')
@@ -196,7 +219,7 @@ def gen_hist(rng, lane, stripped=False):
         elif kind in ('apply', 'badapply'):
             if kind == 'apply':
                 x = rand_val(rng, t, exact=(mode[v] == 'u'))
-                cb = ('reti:' if rng.chance(1, 3) else 'ret:') + x
+                cb = rng.choice(['reti:', 'ret:', 'ret:', 'ret:', 'vret:']) + x
             elif rng.chance(1, 3):
                 x = bad_val(rng, t, mode[v] == 'u')  # a callback whose result is the nil interface or of another type
                 cb = 'reti:nil' if x == 'nil' else 'ret:' + x
@@ -220,7 +243,7 @@ def gen_hist(rng, lane, stripped=False):
                 if bld[w] == b and canceled[w] is not None:
                     canceled[w] = True
         elif kind == 'write':
-            x = rand_val(rng, t, allow_nil=True, exact=True)
+            x = rand_val(rng, t, allow_nil=True, exact=True, fresh=fresh)
             h.ops.append(f'write {v} {x}')
             h.meta.append(('write', v, x))
     return h
@@ -253,7 +276,7 @@ def oracle(h, obs):
             if '/' in val:
                 return (k, f'{w}: direct read and accessor disagree ({val})', 'readers-disagree')
         exp = dict(cur)
-        if kind == 'pkg':
+        if kind in ('pkg', 'gc', 'misc'):
             if out != 'ok':
                 return (k, f'{h.ops[k]} failed: {out}', 'pkg-failed')
         elif kind in ('look', 'lookbad'):
@@ -305,26 +328,52 @@ def oracle(h, obs):
 
 
 _BIN = {}
+STATS = {'probe_crashes': 0, 'unreproduced_crashes': 0, 'probe_timeouts': 0}
+PROBE_ENV = {'GOOM_DEBUG': ''}     # goom's own environment knob (debug logging) must not leak into the probes
 
 
 def build_probe(tag, ldflags):
+    """`go test -c -overlay` of the root package with the probe files, pinned to -buildmode=exe: lookup by name reads
+    .gopclntab/.symtab of a non-PIE binary (a PIE default would make every by-name lookup fail on correct code)."""
     if tag not in _BIN:
-        b, err = C.overlay_build(tag, '', FILES, C.helper_pkgs(), ldflags=ldflags)
-        if b is None:
-            raise C.Infra(f'probe {tag} does not build against the current tree:\n{err[-3000:]}')
-        _BIN[tag] = b
+        import json
+        repl = {os.path.join(C.REPO, v): real for v, real in FILES.items()}
+        for vdir, fmap in C.helper_pkgs().items():
+            for vname, real in fmap.items():
+                repl[os.path.join(C.REPO, vdir, vname)] = real
+        ov = os.path.join(C.BUILD, f'{tag}.overlay.json')
+        json.dump({'Replace': repl}, open(ov, 'w'), indent=1)
+        out = os.path.join(C.BUILD, f'{tag}.test')
+        if os.path.exists(out):
+            os.remove(out)
+        cmd = ['go', 'test', '-c', '-o', out, '-overlay', ov, '-vet=off', '-buildmode=exe', '-gcflags=all=-l', '-ldflags=' + ldflags, '.']
+        rc, o, e = C.sh(cmd, cwd=C.REPO, env=C.goenv({'GOOM_DEBUG': ''}), timeout=1800)
+        if rc != 0 or not os.path.exists(out):
+            raise C.Infra(f'probe {tag} does not build against the current tree:\n{(o + e)[-3000:]}')
+        _BIN[tag] = out
     return _BIN[tag]
 
 
-def run_impl(binary, ops, tag):
-    """Run the probe; a crash loses nothing before it and the remainder is re-run after the crashed line."""
+def _probe_once(binary, ops_path, outp, start, timeout):
+    """one probe process; returns (rc, log); rc = 'timeout' if it had to be killed"""
+    import subprocess
+    try:
+        return C.run_probe(binary, 'TestVerifC08', ops_path, outp, env=dict(PROBE_ENV, VERIF_START=str(start)), timeout=timeout)
+    except subprocess.TimeoutExpired:
+        STATS['probe_timeouts'] += 1
+        return 'timeout', 'probe killed after timeout'
+
+
+def run_impl(binary, ops, tag, timeout=1800):
+    """Run the probe (timeout >= 10x the typical wall time).  A crash or kill loses nothing before it: the line it died on
+    is re-run ONCE alone (only a reproducing crash/timeout is reported as the observation `crash`), then the remainder."""
     ops_path = os.path.join(C.BUILD, f'{tag}.ops')
     open(ops_path, 'w').write('\n'.join(ops) + '\n')
     impl = [None] * len(ops)
     start, crashes = 0, 0
     while start < len(ops):
         outp = os.path.join(C.BUILD, f'{tag}.impl')
-        rc, log = C.run_probe(binary, 'TestVerifC08', ops_path, outp, env={'VERIF_START': str(start)})
+        rc, log = _probe_once(binary, ops_path, outp, start, timeout)
         got = C.read_indexed(outp, len(ops))
         last = start - 1
         for i, v in enumerate(got):
@@ -334,9 +383,19 @@ def run_impl(binary, ops, tag):
         if rc == 0:
             break
         crashes += 1
-        if last + 1 < len(ops):
-            impl[last + 1] = 'crash'
-        start = last + 2
+        STATS['probe_crashes'] += 1
+        bad = last + 1
+        if bad < len(ops):
+            one = os.path.join(C.BUILD, f'{tag}.one.ops')
+            open(one, 'w').write(ops[bad] + '\n')
+            rc1, _ = _probe_once(binary, one, outp + '.one', 0, timeout)
+            g1 = C.read_indexed(outp + '.one', 1)
+            if rc1 == 0 and g1[0] is not None:
+                impl[bad] = g1[0]
+                STATS['unreproduced_crashes'] += 1
+            else:
+                impl[bad] = 'crash'
+        start = bad + 1
         if crashes > 20:
             raise C.Infra('probe keeps crashing:\n' + log[-2000:])
     return impl, ops_path
@@ -435,11 +494,12 @@ def run(tier):
     out = C.Outcome('C08', tier)
     rng = C.Rng(C.seed()).fork('C08')
     proof = C.prove('C08', leanchecker=(tier == 'thorough'))
-    n_disc, n_long, n_wild, n_strip = (1500, 200, 500, 60) if tier == 'quick' else (300000, 30000, 100000, 2000)
+    n_disc, n_long, n_wild, n_strip, n_gc = (1500, 200, 500, 60, 250) if tier == 'quick' else (300000, 30000, 100000, 2000, 6000)
     hists = corpus_hists()
     hists += [gen_hist(rng, 'disc') for _ in range(n_disc)]
     hists += [gen_hist(rng, 'long') for _ in range(n_long)]
     hists += [gen_hist(rng, 'wild') for _ in range(n_wild)]
+    hists += [gen_hist(rng, 'gc') for _ in range(n_gc)]
     lines = [h.line() for h in hists] + asg_lines()
     impl, model, legacy, derr = execute(lines, 'c08')
     shists = [gen_hist(rng, 'disc', stripped=True) for _ in range(n_strip)]
@@ -449,6 +509,13 @@ def run(tier):
     slines = [h.line() for h in shists]
     simpl, smodel, _, _ = execute(slines, 'c08-stripped', stripped=True)
 
+    # floors: a lane that silently ran nothing is a machinery error, not a pass
+    answered = sum(1 for x in impl if x is not None) + sum(1 for x in simpl if x is not None)
+    if answered < 0.98 * (len(lines) + len(slines)) or STATS['probe_crashes'] > 5 and not os.environ.get('VERIF_ALLOW_CRASHES'):
+        if STATS['probe_crashes'] <= 5:
+            raise C.Infra(f'the probe answered only {answered} of {len(lines) + len(slines)} lines')
+    if model is not None and len(model) != len(lines):
+        raise C.Infra(f'the model driver answered {len(model)} of {len(lines)} lines')
     # 1. the property on the implementation
     bad = []
     for hs, im, which in ((hists, impl, 'symbols'), (shists, simpl, 'stripped')):
@@ -487,7 +554,7 @@ def run(tier):
     kh = Hist()
     kh.vars, kh.init, kh.ops = ['err'], {'err': 'nil'}, ['look 0 u err', 'set 0 perr:1']
     kh.meta = [('look', 'err', None), ('set', 'err', 'perr:1')]
-    kimpl, _ = run_impl(build_probe('c08-var', '-s=false'), [kh.line()], 'c08-ueiface')
+    kimpl, _ = run_impl(build_probe('c08-var', '-s=false'), [kh.line()], 'c08-ueiface', timeout=300)
     kwhy = oracle(kh, kimpl[0])
     if kwhy:
         out.violation(f'{kh.line()}: {kwhy[1]}', {'kind': 'impl-oracle', 'ops': [kh.line()], 'meta': kh.meta, 'vars': kh.vars, 'init': kh.init,
@@ -535,6 +602,8 @@ def run(tier):
                 okset = okset or (m[0] in ('set', 'apply') and oc == 'ok')
             if okset:
                 nontrivial.add(h.line())
+    if not bad and not diffs and len(nontrivial) < 0.5 * len(allh):
+        raise C.Infra(f'only {len(nontrivial)} of {len(allh)} histories had a successful Set/Apply: the generator or the probe is broken')
     out.coverage = {
         'obligations': proof['obligations'], 'discharged': proof['discharged'],
         'checker_cmd': ' ; '.join(proof['cmds']),
@@ -549,7 +618,7 @@ def run(tier):
                 'Cancel/Reset x1..n, direct writes, re-lookups, Builder.Pkg overrides pending at lookups; lanes: disc = one mocker per variable at a time (oracle + correspondence), long = same, longer, wild = stale handles too '
                 '(correspondence only), stripped binary) or one c08.asg type pair; non-trivial = distinct history in which at least one Set/Apply succeeded on the real code',
         'distribution': dist,
-        'assignability_pairs': len(asg_lines()),
+        'assignability_pairs': len(asg_lines()), 'machinery': dict(STATS),
         'samples': [{'op': lines[i], 'impl': impl[i], 'model': model[i] if model else None} for i in (0, 7, len(hists) // 2, len(hists) - 1)],
     }
     out.assumptions = ['one mocker per variable at a time (one builder, one addressing mode, no superseded handles) for the restore theorems',
